@@ -150,6 +150,12 @@ def permute4x64 (a : Reg) (imm : Nat) : Reg := fun k => a (2 * ((imm >>> (2 * (k
 def permutexvar32 (idx a : Reg) : Reg := fun k => a ((idx k).toNat % 16)
 /-- `_mm512_permutexvar_epi64 idx a` (also `_pd`) -/
 def permutexvar64 (idx a : Reg) : Reg := fun k => a (2 * ((lane64 idx (k / 2)).toNat % 8) + k % 2)
+/-- `_mm512_permutex2var_ps/_epi32 (a, idx, b)`: lane i := (bit 4 of idx_i ? b : a)[idx_i mod 16] -/
+def permutex2var32 (a idx b : Reg) : Reg :=
+  fun i => let j := (idx i).toNat; (if (j >>> 4) % 2 = 1 then b else a) (j % 16)
+/-- `_mm512_permutex2var_pd/_epi64 (a, idx, b)`: 64-bit lane m := (bit 3 of idx_m ? b : a)[idx_m mod 8] -/
+def permutex2var64 (a idx b : Reg) : Reg :=
+  fun k => let j := (lane64 idx (k / 2)).toNat; (if (j >>> 3) % 2 = 1 then b else a) (2 * (j % 8) + k % 2)
 /-- `_mm_hadd_ps` per block: (a0+a1, a2+a3, b0+b1, b2+b3) -/
 def hadd_ps (fo : FOps) (a b : Reg) : Reg :=
   fun k => let s := if k % 4 < 2 then a else b; let j := k / 4 * 4 + 2 * (k % 2); fo.add32 (s j) (s (j + 1))
@@ -200,5 +206,38 @@ def fneg32 (x : BitVec 32) : BitVec 32 := x ^^^ sign32
 def fneg64 (x : BitVec 64) : BitVec 64 := x ^^^ sign64
 def fabs32 (x : BitVec 32) : BitVec 32 := ~~~sign32 &&& x
 def fabs64 (x : BitVec 64) : BitVec 64 := ~~~sign64 &&& x
+
+-- ---------------------------------------------------------------------------------------------- memory
+/-- memory behind a pointer: 32-bit words indexed from the pointer (`float*`: element e = word e; `double*`: element e =
+    words 2e, 2e+1, read with `lane64`).  `loadw m off` = the register loaded from word offset `off` (any width: the
+    consumer uses the lanes its width has). -/
+def loadw (m : Reg) (off : Nat) : Reg := fun k => m (off + k)
+/-- `_mm_load_ss` / `_mm_load_sd`: one element loaded into the low lane(s), the rest of the register zero -/
+def loadw_ss (m : Reg) (off : Nat) : Reg := fun k => if k = 0 then m off else 0
+def loadw_sd (m : Reg) (off : Nat) : Reg := fun k => if k < 2 then m (off + k) else 0
+/-- `_mm_maskload_ps/_epi32` (AVX): lane k is loaded when the sign bit of mask lane k is set, else 0.  `m` is the memory
+    already positioned at the pointer (`loadw p off`); a disabled lane is not accessed. -/
+def maskload32 (m mask : Reg) : Reg := fun k => if (mask k).msb then m k else 0
+/-- `_mm_maskload_pd/_epi64`: the sign bit of the 64-bit mask lane = of its high 32-bit half -/
+def maskload64 (m mask : Reg) : Reg := fun k => if (mask (2 * (k / 2) + 1)).msb then m k else 0
+/-- `_mm_maskstore_ps`: only the lanes whose mask sign bit is set are written -/
+def maskstore32 (m : Reg) (off n : Nat) (mask r : Reg) : Reg :=
+  fun w => if off ≤ w ∧ w < off + n ∧ (mask (w - off)).msb then r (w - off) else m w
+def maskstore64 (m : Reg) (off n : Nat) (mask r : Reg) : Reg :=
+  fun w => if off ≤ w ∧ w < off + n ∧ (mask (2 * ((w - off) / 2) + 1)).msb then r (w - off) else m w
+/-- AVX-512 `_mm*_mask_loadu_ps(src, k, p)`: bit i of k selects memory, else the lane of src -/
+def kload32 (src : Reg) (k : Nat) (m : Reg) : Reg := fun i => if (k >>> i) % 2 = 1 then m i else src i
+def kload64 (src : Reg) (k : Nat) (m : Reg) : Reg := fun i => if (k >>> (i / 2)) % 2 = 1 then m i else src i
+/-- AVX-512 `_mm*_mask_storeu_ps(p, k, r)` -/
+def kstore32 (m : Reg) (off n k : Nat) (r : Reg) : Reg :=
+  fun w => if off ≤ w ∧ w < off + n ∧ (k >>> (w - off)) % 2 = 1 then r (w - off) else m w
+def kstore64 (m : Reg) (off n k : Nat) (r : Reg) : Reg :=
+  fun w => if off ≤ w ∧ w < off + n ∧ (k >>> ((w - off) / 2)) % 2 = 1 then r (w - off) else m w
+/-- store of the `n` low lanes of `r` at word offset `off`; every other word keeps its value (the footprint of the store) -/
+def storew (m : Reg) (off n : Nat) (r : Reg) : Reg := fun w => if off ≤ w ∧ w < off + n then r (w - off) else m w
+
+/-- uniform calling convention of the generated definitions for the `gen` driver command: float operations, register
+    arguments by position, scalar arguments by position (32-bit ones in the low half) -> result registers, result scalars -/
+abbrev GenFn := FOps → (Nat → Reg) → (Nat → BitVec 64) → List Reg × List (BitVec 64)
 
 end Fastor.Simd
